@@ -476,3 +476,7 @@ tuple_finalize_traces! {
     (A, B, C, D, E, F, G, H, I, J, K);
     (A, B, C, D, E, F, G, H, I, J, K, L);
 }
+
+#[cfg(kani)]
+#[path = "/verif/kani/trace_proofs.rs"]
+pub(crate) mod verif_proofs; // verification hook (H2): specs and contract harnesses live in /verif
